@@ -307,6 +307,10 @@ class ExprMixin(CallMixin):
 
     def ev_Subscript(self, node: ast.Subscript) -> Val:
         base_node = strip_cast(node.value)
+        if not isinstance(base_node, ast.Dict) and isinstance(base_node, (ast.Name, ast.Attribute)):
+            shown = self.display_of(base_node)
+            if isinstance(shown, ast.Dict) and all(isinstance(k, ast.Constant) for k in shown.keys):
+                base_node = shown  # a dispatch table kept in a named constant
         if self.class_table_lookup(node):
             d = self.literal_dict_of(node.value)
             return join_all([self.ev(v) for v in d.values]) if isinstance(base_node, ast.Dict) else STRUCT
